@@ -24,51 +24,152 @@ Lemma redirect_cross_talk_refuted_w :
 Proof. exists [0; 0; 0; 0; 1; 1; 1; 1; 0; 1]. vm_compute. split; reflexivity. Qed.
 
 (* ------------------------------------------------------------------ the lookup and its shared effects *)
-Lemma lookup_pure_modulo_shared_l : forall hosts path host s,
-  fst (lookup hosts path host s) = lookup_pure hosts path host (lk_cursor s).
+Lemma eq_rid_false_later : forall (x : rid) i j, S i <= fst x -> eq_rid x (i, j) = false.
 Proof.
-  intros. unfold lookup, lookup_pure. destruct (find_host path hosts 0) as [[id r]|]; [|reflexivity].
-  destruct (pick_target r (lk_cursor s id)); reflexivity.
+  intros [a b] i j H. unfold eq_rid. cbn [fst snd] in *.
+  destruct (Nat.eqb_spec a i); [lia | reflexivity].
+Qed.
+Lemma advance_later : forall s i j r x, S i <= fst x -> lk_cursor (advance s (i, j) r) x = lk_cursor s x.
+Proof.
+  intros s i j r x H. unfold advance. destruct (Nat.eqb (r_ntargets r) 1); [reflexivity|].
+  cbn [lk_cursor]. now rewrite eq_rid_false_later.
 Qed.
 
-(* the answer reads one cursor - that of the answering route - and nothing else of the shared state *)
-Lemma lookup_pure_one_cursor_l : forall hosts path host f g,
-  (forall id r, find_host path hosts 0 = Some (id, r) -> f id = g id) ->
-  lookup_pure hosts path host f = lookup_pure hosts path host g.
+(* (a mechanism lemma: [lookup_pure] is [lookup] with the state threaded out; its content is that the picks
+   of one lookup never read a cursor an earlier pick of the same lookup has advanced) *)
+Lemma lookup_pure_from_l : forall path host proto hosts i s f,
+  (forall id, i <= fst id -> lk_cursor s id = f id) ->
+  fst (lookup_from path host proto hosts i s) = lookup_pure_from path host proto hosts i f.
 Proof.
-  intros hosts path host f g H. unfold lookup_pure.
-  destruct (find_host path hosts 0) as [[id r]|] eqn:E; [|reflexivity].
-  rewrite (H id r eq_refl). reflexivity.
+  intros path host proto hosts. induction hosts as [|rs rest IH]; intros i s f H; cbn [lookup_from lookup_pure_from]; [reflexivity|].
+  destruct (find_route path rs 0) as [[j r]|]; [|apply IH; intros id Hid; apply H; lia].
+  destruct (Nat.eqb (r_ntargets r) 0); [apply IH; intros id Hid; apply H; lia|].
+  rewrite (H (i, j)) by (cbn; lia).
+  destruct (pick_target r (f (i, j))) as [t| |]; try reflexivity.
+  destruct (self_redirect r path host proto); [|reflexivity].
+  apply IH. intros id Hid. rewrite advance_later by assumption. apply H. lia.
+Qed.
+Lemma lookup_pure_modulo_shared_l : forall hosts path host proto s,
+  fst (lookup hosts path host proto s) = lookup_pure hosts path host proto (lk_cursor s).
+Proof. intros. unfold lookup, lookup_pure. now apply lookup_pure_from_l. Qed.
+
+(* every candidate route can pick whatever its cursor (a single target, or a non-empty ring) *)
+Definition ring_ok (r : route) : Prop := r_ntargets r = 1 \/ r_ring r <> [].
+Definition rings_ok (hosts : list (list route)) : Prop := Forall (Forall ring_ok) hosts.
+
+Lemma slot_total : forall (ring : list nat) c, ring <> [] -> exists t, slot ring c = Ok t.
+Proof.
+  intros ring c H. unfold slot. destruct ring as [|a r]; [congruence|].
+  set (L := length (a :: r)).
+  assert (B : N.to_nat (N.modulo c (N.of_nat L)) < L).
+  { rewrite N2Nat.inj_mod, Nat2N.id. apply Nat.mod_upper_bound. unfold L. cbn. lia. }
+  destruct (nth_error (a :: r) (N.to_nat (N.modulo c (N.of_nat L)))) as [t|] eqn:E; [now exists t|].
+  apply nth_error_None in E. fold L in E. lia.
+Qed.
+Lemma pick_total : forall r c, ring_ok r -> exists t, pick_target r c = Ok t.
+Proof.
+  intros r c [H|H]; unfold pick_target.
+  - rewrite H. cbn. now exists 0.
+  - destruct (Nat.eqb (r_ntargets r) 1); [now exists 0 | now apply slot_total].
+Qed.
+Lemma find_route_in : forall path rs j0 j r, find_route path rs j0 = Some (j, r) -> In r rs.
+Proof.
+  intros path rs. induction rs as [|x rs IH]; intros j0 j r H; cbn in H; [discriminate|].
+  destruct (has_prefix path (r_path x)); [inversion H; subst; now left | right; eapply IH; eassumption].
 Qed.
 
-(* frame: a lookup leaves every other cursor and every other target's redirect URL alone; a
-   single-target route does not even touch its cursor *)
-Lemma lookup_frame_l : forall hosts path host s r s',
-  lookup hosts path host s = (Ok (Some r), s') ->
-  (forall id, eq_rid id (lk_route r) = false -> lk_cursor s' id = lk_cursor s id) /\
-  lk_redirect s' = lk_redirect s.
+(* lookup_reads_one_cursor: the answer reads ONE cursor - that of the answering route.  Whatever the cursors of
+   all other routes are (those of skipped self-redirect routes included: their pick is made and discarded) *)
+Lemma lookup_reads_one_cursor_from : forall path host proto hosts i f g res, rings_ok hosts ->
+  lookup_pure_from path host proto hosts i f = Ok (Some res) -> g (lk_route res) = f (lk_route res) ->
+  lookup_pure_from path host proto hosts i g = Ok (Some res).
 Proof.
-  intros hosts path host s r s' H. unfold lookup in H.
-  destruct (find_host path hosts 0) as [[id ro]|]; [|discriminate].
-  destruct (pick_target ro (lk_cursor s id)) as [t| |]; try discriminate.
-  inversion H; subst; clear H. cbn [lk_route lk_target lk_cursor lk_redirect]. split.
-  - intros x Hx. destruct (Nat.eqb (r_ntargets ro) 1); [reflexivity|]. rewrite Hx. reflexivity.
-  - reflexivity.
+  intros path host proto hosts. induction hosts as [|rs rest IH]; intros i f g res W H E; cbn [lookup_pure_from] in *; [discriminate|].
+  inversion W as [|? ? W1 W2]; subst.
+  destruct (find_route path rs 0) as [[j r]|] eqn:F; [|eapply IH; eassumption].
+  destruct (Nat.eqb (r_ntargets r) 0); [eapply IH; eassumption|].
+  assert (Rk : ring_ok r) by (eapply (proj1 (Forall_forall _ _) W1); eapply find_route_in; eassumption).
+  destruct (self_redirect r path host proto) eqn:SR.
+  - destruct (pick_total r (f (i, j)) Rk) as [t1 P1]. destruct (pick_total r (g (i, j)) Rk) as [t2 P2].
+    rewrite P1 in H. rewrite P2. eapply IH; eassumption.
+  - destruct (pick_target r (f (i, j))) as [t| |] eqn:P; try discriminate.
+    inversion H; subst res. cbn [lk_route] in E. rewrite E, P. reflexivity.
+Qed.
+Lemma lookup_miss_reads_none_from : forall path host proto hosts i f g, rings_ok hosts ->
+  lookup_pure_from path host proto hosts i f = Ok None -> lookup_pure_from path host proto hosts i g = Ok None.
+Proof.
+  intros path host proto hosts. induction hosts as [|rs rest IH]; intros i f g W H; cbn [lookup_pure_from] in *; [reflexivity|].
+  inversion W as [|? ? W1 W2]; subst.
+  destruct (find_route path rs 0) as [[j r]|] eqn:F; [|eapply IH; eassumption].
+  destruct (Nat.eqb (r_ntargets r) 0); [eapply IH; eassumption|].
+  assert (Rk : ring_ok r) by (eapply (proj1 (Forall_forall _ _) W1); eapply find_route_in; eassumption).
+  destruct (self_redirect r path host proto) eqn:SR.
+  - destruct (pick_total r (f (i, j)) Rk) as [t1 P1]. destruct (pick_total r (g (i, j)) Rk) as [t2 P2].
+    rewrite P1 in H. rewrite P2. eapply IH; eassumption.
+  - destruct (pick_target r (f (i, j))) as [t| |]; discriminate.
 Qed.
 
-Lemma lookup_miss_no_effect_l : forall hosts path host s s',
-  lookup hosts path host s = (Ok None, s') -> s' = s.
+(* the routes whose cursor one lookup may advance: the first matching route of a candidate host, with
+   several targets, that either answers or is a skipped self-redirect *)
+Definition touched (path host proto : str) (hosts : list (list route)) (i : nat) (res : outcome (option lk_result)) (id : rid) : Prop :=
+  i <= fst id /\ exists rs r, nth_error hosts (fst id - i) = Some rs /\ find_route path rs 0 = Some (snd id, r)
+    /\ r_ntargets r <> 0 /\ r_ntargets r <> 1
+    /\ (self_redirect r path host proto = true \/ exists t loc, res = Ok (Some {| lk_route := id; lk_target := t; lk_location := loc |})).
+
+(* lookup_frame: no target is written; every cursor is unchanged or advanced by exactly one, and only the
+   cursors of [touched] routes advance: the answering route AND every skipped self-redirect route with
+   several targets (their pick is made before the skip) - load-balancing state, nothing else *)
+Lemma lookup_frame_from : forall path host proto hosts i s,
+  lk_redirect (snd (lookup_from path host proto hosts i s)) = lk_redirect s /\
+  forall id, lk_cursor (snd (lookup_from path host proto hosts i s)) id = lk_cursor s id \/
+             (lk_cursor (snd (lookup_from path host proto hosts i s)) id = N.modulo (lk_cursor s id + 1) two64
+              /\ touched path host proto hosts i (fst (lookup_from path host proto hosts i s)) id).
 Proof.
-  intros hosts path host s s' H. unfold lookup in H.
-  destruct (find_host path hosts 0) as [[id ro]|]; [|now inversion H].
-  destruct (pick_target ro (lk_cursor s id)); discriminate.
+  intros path host proto hosts. induction hosts as [|rs rest IH]; intros i s; cbn [lookup_from].
+  - split; [reflexivity | intros id; now left].
+  - assert (Shift : forall res id, touched path host proto rest (S i) res id -> touched path host proto (rs :: rest) i res id).
+    { intros res id (T1 & rs' & r' & T2 & T3). split; [lia|]. exists rs', r'. split; [|assumption].
+      replace (fst id - i) with (S (fst id - S i)) by lia. exact T2. }
+    destruct (find_route path rs 0) as [[j r]|] eqn:F.
+    2:{ destruct (IH (S i) s) as [I1 I2]. split; [assumption|]. intros id. destruct (I2 id) as [I|[I T]]; [now left | right; split; [assumption | now apply Shift]]. }
+    destruct (Nat.eqb (r_ntargets r) 0) eqn:Z.
+    { destruct (IH (S i) s) as [I1 I2]. split; [assumption|]. intros id. destruct (I2 id) as [I|[I T]]; [now left | right; split; [assumption | now apply Shift]]. }
+    apply Nat.eqb_neq in Z.
+    destruct (pick_target r (lk_cursor s (i, j))) as [t| |] eqn:P; cbn [fst snd]; try (split; [reflexivity | intros id; now left]).
+    assert (Adv : lk_redirect (advance s (i, j) r) = lk_redirect s /\
+                  forall id, lk_cursor (advance s (i, j) r) id = lk_cursor s id \/
+                             (id = (i, j) /\ r_ntargets r <> 1 /\ lk_cursor (advance s (i, j) r) id = N.modulo (lk_cursor s id + 1) two64)).
+    { unfold advance. destruct (Nat.eqb (r_ntargets r) 1) eqn:O; [split; [reflexivity | intros; now left]|].
+      apply Nat.eqb_neq in O. cbn [lk_redirect lk_cursor]. split; [reflexivity|]. intros [a b]. unfold eq_rid. cbn [fst snd].
+      destruct (Nat.eqb_spec a i), (Nat.eqb_spec b j); cbn; try (now left). subst. right. auto. }
+    destruct Adv as [A1 A2].
+    destruct (self_redirect r path host proto) eqn:SR.
+    + destruct (IH (S i) (advance s (i, j) r)) as [I1 I2]. split; [congruence|]. intros id.
+      destruct (I2 id) as [I|[I T]].
+      * rewrite I. destruct (A2 id) as [A|(A & O & B)]; [now left|]. right. split; [assumption|]. subst id.
+        split; [cbn; lia|]. exists rs, r. cbn [fst snd]. rewrite Nat.sub_diag. cbn [nth_error]. repeat split; auto.
+      * right. split; [|now apply Shift]. rewrite I. f_equal. f_equal.
+        apply advance_later. destruct T as [T _]. exact T.
+    + cbn [fst snd]. split; [assumption|]. intros id. destruct (A2 id) as [A|(A & O & B)]; [now left|]. right. split; [assumption|].
+      subst id. split; [cbn; lia|]. exists rs, r. cbn [fst snd]. rewrite Nat.sub_diag. cbn [nth_error]. repeat split; auto.
+      right. eauto.
 Qed.
 
 Example lookup_nonvacuous :
   let ro := {| r_path := bs "/"; r_ntargets := 2; r_ring := [0; 1]; r_redirect := None |} in
-  fst (lookup [[ro]] (bs "/x") (bs "h") {| lk_cursor := fun _ => 5%N; lk_redirect := fun _ => None |})
+  fst (lookup [[ro]] (bs "/x") (bs "h") (bs "http") {| lk_cursor := fun _ => 5%N; lk_redirect := fun _ => None |})
   = Ok (Some {| lk_route := (0, 0); lk_target := 1; lk_location := None |}).
 Proof. vm_compute. reflexivity. Qed.
+
+(* a self-redirect route with two targets is skipped AFTER its pick: the fallback answers, both cursors moved *)
+Example lookup_skip_nonvacuous :
+  let self := {| r_path := bs "/"; r_ntargets := 2; r_ring := [0; 1]; r_redirect := Some [Lit (bs "http://"); HHole; Slash; Hole] |} in
+  let fb := {| r_path := bs "/"; r_ntargets := 3; r_ring := [0; 1; 2]; r_redirect := None |} in
+  let r := lookup [[self]; [fb]] (bs "/x") (bs "d.example") (bs "http") {| lk_cursor := fun _ => 7%N; lk_redirect := fun _ => None |} in
+  fst r = Ok (Some {| lk_route := (1, 0); lk_target := 1; lk_location := None |})
+  /\ lk_cursor (snd r) (0, 0) = 8%N /\ lk_cursor (snd r) (1, 0) = 8%N /\ lk_cursor (snd r) (2, 0) = 7%N.
+Proof. vm_compute. repeat split. Qed.
+
 (* ------------------------------------------------------------------ rr, fetch-and-add *)
 Lemma all_seen_upd : forall ts i l l' x, nth_error ts i = Some l -> rr_seen l' = rr_seen l ++ [x] ->
   Permutation (all_seen (upd ts i l')) (all_seen ts ++ [x]).
@@ -391,3 +492,18 @@ Example redirect_every_schedule_nonvacuous :
                        [rd_init (bs "/from-A") (bs "old.example"); rd_init (bs "/from-B") (bs "old.example")]))
   = [Some (Ok (bs "http://new.example/from-A")); Some (Ok (bs "http://new.example/from-B"))].
 Proof. vm_compute. reflexivity. Qed.
+
+(* ---- the lookup lemmas at candidate host 0 ---- *)
+Lemma lookup_reads_one_cursor_l : forall hosts path host proto f g res, rings_ok hosts ->
+  lookup_pure hosts path host proto f = Ok (Some res) -> g (lk_route res) = f (lk_route res) ->
+  lookup_pure hosts path host proto g = Ok (Some res).
+Proof. intros. unfold lookup_pure in *. eapply lookup_reads_one_cursor_from; eassumption. Qed.
+Lemma lookup_miss_reads_none_l : forall hosts path host proto f g, rings_ok hosts ->
+  lookup_pure hosts path host proto f = Ok None -> lookup_pure hosts path host proto g = Ok None.
+Proof. intros. unfold lookup_pure in *. eapply lookup_miss_reads_none_from; eassumption. Qed.
+Lemma lookup_frame_l : forall hosts path host proto s,
+  lk_redirect (snd (lookup hosts path host proto s)) = lk_redirect s /\
+  forall id, lk_cursor (snd (lookup hosts path host proto s)) id = lk_cursor s id \/
+             (lk_cursor (snd (lookup hosts path host proto s)) id = N.modulo (lk_cursor s id + 1) two64
+              /\ touched path host proto hosts 0 (fst (lookup hosts path host proto s)) id).
+Proof. intros. unfold lookup. apply lookup_frame_from. Qed.
